@@ -53,6 +53,8 @@ func runC07(c *core.Ctx) {
 	c.RuleDoc("R07.1", "join-after-validate for Sub roots; root fields only receive validated values")
 	c.RuleDoc("R07.2", "generic Sub view reaches its parent only through Mount's (FS, subPath) pair")
 	c.RuleDoc("R07.3", "Sub view error translation uses the same pair")
+	c.RuleDoc("R07.6", "prefix tests against a view's root (os.FS root, mount translation) are on path-element boundaries")
+	c.RuleDoc("R07.7", "a helper resolves a route once and leaves the next decision to the resolved file system")
 	c.RuleDoc("R07.5", "every capability-probing helper has a MountFS branch (the generic Sub view is a MountFS)")
 	c.RuleDoc("R07.4", "no file system handed out derives from a one-time route resolution Mount(dir)")
 	for _, p := range c.Progs {
@@ -63,12 +65,16 @@ func runC07(c *core.Ctx) {
 		r07Confinement(c, p)
 		r07Routes(c, p, p.SrcFuncs(), "")
 		r06EveryHelperRoutes(c, p, "R07.5")
+		boundaryTests(c, p, "R07.6", "os", "")
+		r07SingleResolution(c, p)
 	}
 	c.Floor("R07.1", 5)
 	c.Floor("R07.2", 2)
 	c.Floor("R07.3", 1)
 	c.Floor("R07.4", 8)
 	c.Floor("R07.5", 15)
+	c.Floor("R07.6", 1)
+	c.Floor("R07.7", 15)
 }
 
 // joinArgs returns the elements of the variadic slice of a path.Join call.
@@ -543,6 +549,7 @@ func recvNamed(rp *ssa.Parameter) *types.Named {
 // rootForgotten: an alternative (phi edge) of v that does not depend on the receiver's root field; "" if every
 // alternative does.
 func rootForgotten(v ssa.Value, rp *ssa.Parameter, cf cfgField, d int, seen map[ssa.Value]bool) string {
+	v = stripDotNormalisation(v)
 	if ph, ok := v.(*ssa.Phi); ok && d < 6 && !seen[v] {
 		seen[v] = true
 		for _, e := range ph.Edges {
@@ -599,4 +606,59 @@ func rootForgotten(v ssa.Value, rp *ssa.Parameter, cf cfgField, d int, seen map[
 		return ""
 	}
 	return vname(v)
+}
+
+// r07SingleResolution (R07.7): a helper resolves a name with Mount once and hands (file system, sub-path) to the helper
+// of the same operation, which decides again from that file system's own capabilities. A helper that type-asserts the
+// resolved file system to MountFS and resolves a second time by hand skips that file system's own method — for
+// Rename the only code that can move a file between two of ITS mounts — so the view answers ErrNotImplemented where
+// the parent succeeds.
+func r07SingleResolution(c *core.Ctx, p *load.Program) {
+	fromMount := func(v ssa.Value) *ssa.Call {
+		for i := 0; i < 6 && v != nil; i++ {
+			switch x := v.(type) {
+			case *ssa.TypeAssert:
+				v = x.X
+			case *ssa.Extract:
+				if cl, ok := x.Tuple.(*ssa.Call); ok && cl.Call.IsInvoke() && cl.Call.Method.Name() == "Mount" {
+					return cl
+				}
+				v = x.Tuple
+			case *ssa.ChangeInterface:
+				v = x.X
+			case *ssa.MakeInterface:
+				v = x.X
+			case *ssa.Phi:
+				for _, e := range x.Edges {
+					if _, isParam := e.(*ssa.Parameter); !isParam {
+						v = e
+					}
+				}
+				if v == ssa.Value(x) {
+					return nil
+				}
+			default:
+				return nil
+			}
+		}
+		return nil
+	}
+	n := 0
+	for _, fn := range pkgFuncs(p, "") {
+		ord := ordinals{}
+		ssax.Instrs(fn, func(ins ssa.Instruction) {
+			cl, ok := ins.(*ssa.Call)
+			if !ok || !cl.Call.IsInvoke() || cl.Call.Method.Name() != "Mount" {
+				return
+			}
+			n++
+			key := fname(fn) + "|" + ord.next("route-resolved-once")
+			first := fromMount(cl.Call.Value)
+			c.Check(first == nil, "R07.7", key, p.Pos(cl.Pos()), "Mount is invoked on the helper's own file system, not on the result of another resolution",
+				fmt.Sprintf("%s resolves a second time by hand at %s, on the file system an earlier Mount returned: the nested MountFS's own method is skipped (mount.FS.Rename is the only code that moves a file between two of its mounts), so through a Sub view above two mount points the operation answers ErrNotImplemented where the parent file system succeeds", fname(fn), p.Pos(cl.Pos())))
+		})
+	}
+	if n < 15 {
+		c.Hard("anchor: Mount invocations in the helpers (found %d)", n)
+	}
 }
